@@ -33,7 +33,7 @@ PROPS = {
    'no_inflation_ledger', 'ledger_history_ok', 'no_inflation', 'no_inflation_reconf', 'no_inflation_ledger_reconf', 'no_inflation_ledger_with_cuts', 'cut_ledger_history_ok', 'no_inflation_with_cuts', 'swap_cut_no_value_created', 'concurrent_swaps_never_inflate', 'swap_cut_signatures_imply_spent', 'swap_balanced', 'mint_within_quote', 'melt_burns_enough', 'validated_covers',
    'melt_fee_limit', 'melt_fee_limit_mpp', 'request_melt_quote_fee', 'melt_amount_must_fit']),
  'C03': ("A mint quote is issued at most once per payment, never before it is paid", [
-   'quote_issued_at_most_once_per_payment', 'mint_cut_states', 'internal_credits_are_melts', 'step_qinv', 'mint_needs_payment', 'mint_within_quote', 'mint_once',
+   'quote_issued_at_most_once_per_payment', 'quote_issued_at_most_once_with_cuts', 'mint_cut_states', 'internal_credits_are_melts', 'step_qinv', 'mint_needs_payment', 'mint_within_quote', 'mint_once',
    'mint_marks_issued', 'mint_nut20', 'watcher_only_unpaid', 'quotes_never_altered', 'mint_mint_race']),
  'C04': ("Only genuine mint signatures are honoured, at exactly their signed amount", [
    'check_proof_iff', 'check_proofs_forall', 'swap_accepts_only_genuine']),
